@@ -283,7 +283,7 @@ Example c15_nonvacuous :
     (sget (f_state pfr) 13, sget (f_state pfr') 13, sget (f_state pfr') 15, sget (f_state pfr') 11)
       = (Some 5, Some 5, Some 7, Some 2) /\
     (* injected late failure under the plural policy: an error and an unchanged world *)
-    (let wi := fst (prebind c_root c_art c_plural ex_w 0 (mkPolicy 2 true) 0) in
+    (let wi := fst (prebind c_root c_art c_plural c_shell ex_w 0 (mkPolicy 2 true)) in
      snd (settle_c wi 0 (mkPolicy 2 true)) = Err EShell /\ fst (settle_c wi 0 (mkPolicy 2 true)) = wi).
 Proof.
   do 7 eexists.
